@@ -2,16 +2,16 @@ import Comrak.Props.C14
 open Comrak.C14
 #print axioms tagfilter_oob_before_fix
 #print axioms tagfilter_total
-#print axioms tagfilter_eq_specC
+#print axioms tagfilter_eq_spec
 #print axioms tagfilter_eq_spec_partial
-#print axioms tagfilter_formfeed_counterexample
-#print axioms tagfilterBlock_eq_rewriteC
+#print axioms tagfilter_formfeed_filtered
+#print axioms tagfilterBlock_eq_rewriteSpec
 #print axioms tagfilterBlock_eq_rewriteSpec_partial
 #print axioms inline_filtered_iff
 #print axioms block_filtered
 #print axioms unfiltered_verbatim
 #print axioms no_disallowed_survives
 #print axioms no_disallowed_survives_partial
-#print axioms no_disallowed_survives_formfeed_counterexample
+#print axioms no_disallowed_survives_formfeed
 #print axioms drv_survivors_eq
 #print axioms inline_first_not_disallowed
